@@ -85,7 +85,7 @@ CHECKS = {
              'accepted_is_safe (whatever the default choice/validation of tsc_parallel returns satisfies np = 1 or nthread <= 1 or np = 2 or (2 | np and 3 np <= g)), starts_index_inbounds (both loops of _tsc_parallel, odd np too), '
              'Conc.disjoint_footprints_interleave / rmw_interleave (threads as load/store step lists: pairwise disjoint footprints imply EVERY schedule leaves the sequential result) with lost_update_witness, parallel_eq_serial(_stripe_order), narrow_stripe_races. '
              'Tie to /repo on every run: all (n1d <= 64, nthread <= 24, npartition in {None,0,-1} u 1..n1d+1) decisions of the real tsc_parallel vs the model (exhaustive), rows written by _tsc_scatter.py_func on a recording grid vs rowsOf, '
-             'starts indices read by _tsc_parallel.py_func, 260 whole tsc_parallel runs (nthread 2..16, coord, sort, offsets, odd np with one thread) bit-identical to the single-thread grid on dyadic inputs, and a model-free oracle that computes the row set of every stripe of every accepted configuration from the real partition + kernel: two equal-parity stripes sharing a row is the failing input.',
+             'starts indices read by _tsc_parallel.py_func, 260 whole tsc_parallel runs (nthread 2..16, coord, sort, offsets, odd np with one thread) bit-identical to the single-thread grid on dyadic inputs, and a model-free oracle that computes the row set of every stripe of every accepted configuration from the real partition + kernel: two equal-parity stripes sharing a row is the failing input. The source-level premise of the schedule theorems — every store inside a numba.prange loop of the anchored kernels goes to memory owned by the executing iteration/thread — is re-extracted from /repo with ast on every run (harness/extract/prange.py -> Generated/PrangeC07.lean) and decided by prange_writes_private, so an edit that makes two iterations write the same cell breaks a proof deterministically instead of waiting for a lost update to show up.',
         note='PARTIAL: the interleaving model is sequentially consistent per array cell and quantifies over arbitrary schedules (over-approximating numba prange); the CPU memory model, the scheduler and one-ulp float stripe keys are trusted. parallel_eq_serial takes stripe contents as a function, linked to C17 by statement.',
         design='§7 C07'),
     'C09': dict(
@@ -99,7 +99,7 @@ CHECKS = {
         technique='Lean 4 proofs (structural induction over the thread-block boundary list; fill-pass write list = enumeration of the filter; permutation lemma for writes to distinct cells) + differential and independent-oracle runs of gen_gal_cat across 1..16 threads, exhaustive fast_concatenate, rint(linspace) block sweep',
         text='twoPass_run, fill_is_filter (for every T >= 1, EVERY monotone block sequence incl. T > H and H = 0, and each class: write indices are exactly 0..N_c-1 each once and the array is the row-ordered filter), thread_count_independent, count_fill_agree, blocks_partition, '
              'applyWrites_perm / schedule_independent (distinct cells: every order of the writes gives the same arrays), fastConcat_spec / _branches / _schedule_independent, searchsorted_pointwise, rint_linspace_blocks. Tied to /repo each run: gen_gal_cat(Nthread = 1..16) on host tables 0..40 and particle tables 0..200, '
-             'all 7 tracer subsets: every column, row order and Ncent bitwise identical to one thread, an independent row-by-row oracle, the model-predicted row placement; fast_concatenate exhaustive over N1, N2 <= 12, T <= 16; the real rint(linspace) boundaries for all H <= 300, T <= 64 checked to be a monotone 0..H block sequence (the premise of the theorems).',
+             'all 7 tracer subsets: every column, row order and Ncent bitwise identical to one thread, an independent row-by-row oracle, the model-predicted row placement; fast_concatenate exhaustive over N1, N2 <= 12, T <= 16; the real rint(linspace) boundaries for all H <= 300, T <= 64 checked to be a monotone 0..H block sequence (the premise of the theorems). The source-level premise of the schedule theorems — every store inside a numba.prange loop of the anchored kernels goes to memory owned by the executing iteration/thread — is re-extracted from /repo with ast on every run (harness/extract/prange.py -> Generated/PrangeC10.lean) and decided by prange_writes_private, so an edit that makes two iterations write the same cell breaks a proof deterministically instead of waiting for a lost update to show up.',
         note='PARTIAL: memory model and numba scheduler trusted (over-approximated by any order of writes to distinct cells); keep codes are inputs (C09); sizes below 2^40 for the float floor in the thread split; the real code runs in a child process because a broken fill pass corrupts the heap.',
         design='§7 C10'),
     'C14': dict(
@@ -113,7 +113,7 @@ CHECKS = {
         technique='Lean 4 proof (parallel counting sort = stable partition for every monotone thread-block sequence and every permutation of the write list) + seeded structured correspondence of the compiled model driver with partition_parallel (compiled and py_func) + independent permutation/stripe/starts oracle',
         text='partition_stable (output = concatenation over stripes of the input filtered by key in input order, for every npartition, thread count, monotone block list and EVERY permutation of the scatter write list), scatter_indices_perm, starts_spec, partition_nthread_independent, '
              'more_threads_than_particles, empty_input, linspaceBlocks_ok, weights_move_with_positions, key_spec, sorted_stripes. Tied to /repo each run on ~2700 cases: N in 0..200, nthread 1..16 (incl. > N), npartition 1..40, coord, f4/f8, weights, sort, duplicates, values on stripe boundaries and at Box (dyadic boxes so the float key is exact); '
-             'rows compared as (x,y,z,w) tuples, input vs a pre-call copy, starts; the oracle checks permutation, weights moving with positions, exact stripe membership, starts, sortedness without the model.',
+             'rows compared as (x,y,z,w) tuples, input vs a pre-call copy, starts; the oracle checks permutation, weights moving with positions, exact stripe membership, starts, sortedness without the model. The source-level premise of the schedule theorems — every store inside a numba.prange loop of the anchored kernels goes to memory owned by the executing iteration/thread — is re-extracted from /repo with ast on every run (harness/extract/prange.py -> Generated/PrangeC17.lean) and decided by prange_writes_private, so an edit that makes two iterations write the same cell breaks a proof deterministically instead of waiting for a lost update to show up.',
         note='Trusted: Lean kernel, harness, float key exact only on dyadic boxes, numba argsort by specification.',
         design='§7 C17'),
     'C20': dict(
@@ -141,7 +141,7 @@ CHECKS = {
         technique='Lean 4 proofs (two-pointer loop invariant, Hermitian re-indexing, conjugation-symmetric sum re-indexing, fiberwise thread sums, decide +kernel Legendre table) over an executable contribution-list model of bin_kmu / bin_kppi / P_n; differential correspondence with the compiled kernels (plain, NUMBA_BOUNDSCHECK=1 sub-process, py_func) and calc_pk_from_deltak; independent full-mesh fftfreq brute-force oracle',
         text='fold_is_fftfreq, hermitian_reindex, lead_is_least, kmu/kppi_search_inbounds, thread_independent, kmu_counts_exact / kppi_counts_exact (counts[b][m] = number of modes of the FULL n^3 fftfreq mesh classified to the bin, every n >= 1 odd or even, every edge list), kmu_means / kppi_means / kmu_pole_means '
              '(reported power, k_avg and (2l+1)-weighted poles are means over exactly those modes for conjugation-symmetric meshes), monopole_is_mu_average, legendre_table, Pn_zero/two/four. Tied to /repo on every run on all n <= 12 (24 thorough) x float32/float64 x 10 k-edge families '
-             '(below/at/above Nyquist and the diagonal, log, ties on attained |k|^2) x mu / pi / pole / thread variants: counts exactly, means within stated bounds; a brute-force oracle over the full mesh decides violations; every case first runs in a bounds-checked sub-process. Detects the four repaired defects on 5f669f3.',
+             '(below/at/above Nyquist and the diagonal, log, ties on attained |k|^2) x mu / pi / pole / thread variants: counts exactly, means within stated bounds; a brute-force oracle over the full mesh decides violations; every case first runs in a bounds-checked sub-process. Detects the four repaired defects on 5f669f3. The source-level premise of the schedule theorems — every store inside a numba.prange loop of the anchored kernels goes to memory owned by the executing iteration/thread — is re-extracted from /repo with ast on every run (harness/extract/prange.py -> Generated/PrangeC08.lean) and decided by prange_writes_private, so an edit that makes two iterations write the same cell breaks a proof deterministically instead of waiting for a lost update to show up.',
         note='Trusted: Lean kernel, harness and oracle, numba bounds checking; float rounding of mu^2 and edge squares and fastmath summation order (stated tolerances, tie nudging counted in the evidence); odd multipoles not modelled; prange as an arbitrary row-to-thread assignment.',
         design='§7 C08'),
     'C13': dict(
@@ -149,7 +149,7 @@ CHECKS = {
         text='dft_shift, dft_const, fourierField_translate, power_ / cross_power_ / table_translation_invariant, power_perm_invariant, cross_eq_auto, nmode_particle_free, thread_independent, codedPhase_unit, codedW_pos and calc_power_symmetries hold for every mesh, '
              'particle list, whole-cell shift, phase, real window, binning and thread assignment; the deposit hypotheses (additive, roll-equivariant) are discharged from the C06 theorems in Props/C13Link.lean (calc_power_symmetries_c06: TSC and CIC, offsets 0 and half a cell). '
              'Tied to /repo on every run: normalisations exactly, rfftn vs a naive DFT (1e-12), get_field_fft for meshes 2..6 x TSC/CIC x interlaced x compensated x weights x threads (5e-5 of max|F|, observed 1e-6), get_W_compensated, get_raw_power; and the metamorphic relations on the real calc_power '
-             '(permutation, whole-cell translation with wrap on dyadic lattices, nthread in {1,2,5,16}, pos2 = pos, particle-independence of N_mode / k / mu columns and table shape) over nmesh 4..16 incl. odd x TSC/CIC x compensated x interlaced x binnings x poles x weights.',
+             '(permutation, whole-cell translation with wrap on dyadic lattices, nthread in {1,2,5,16}, pos2 = pos, particle-independence of N_mode / k / mu columns and table shape) over nmesh 4..16 incl. odd x TSC/CIC x compensated x interlaced x binnings x poles x weights. The source-level premise of the schedule theorems — every store inside a numba.prange loop of the anchored kernels goes to memory owned by the executing iteration/thread — is re-extracted from /repo with ast on every run (harness/extract/prange.py -> Generated/PrangeC13.lean) and decided by prange_writes_private, so an edit that makes two iterations write the same cell breaks a proof deterministically instead of waiting for a lost update to show up.',
         note='PARTIAL: exact-arithmetic model over the complex numbers; IEEE rounding, numba fastmath and scipy rfftn are assumed and compared under stated bounds (5e-5 of the column scale for calc_power outputs, observed <= 1e-6). The binning is an abstract weighted mean (the interface C08 instantiates); thread independence of the deposit is C07.',
         design='§7 C13'),
     'C02': dict(
